@@ -48,6 +48,14 @@ def specs(bridge):
     from pyasn1.type import constraint
     out.append(univ.Integer().subtype(subtypeSpec=constraint.ValueRangeConstraint(0, 10)))
     out.append(univ.SequenceOf(componentType=univ.Integer()).subtype(subtypeSpec=constraint.ValueSizeConstraint(0, 1)))
+    # ... or is evaluated on a member that is not there / on the internal form of the value
+    out.append(univ.Sequence(componentType=namedtype.NamedTypes(
+        namedtype.OptionalNamedType('a', univ.Integer()), namedtype.NamedType('b', univ.Boolean()))).subtype(
+        subtypeSpec=constraint.WithComponentsConstraint(('a', constraint.ValueRangeConstraint(1, 5)))))
+    out.append(univ.Choice(componentType=namedtype.NamedTypes(
+        namedtype.NamedType('a', univ.Integer()), namedtype.NamedType('b', univ.Boolean()))).subtype(
+        subtypeSpec=constraint.WithComponentsConstraint(('a', constraint.ComponentAbsentConstraint()))))
+    out.append(univ.Real().subtype(subtypeSpec=constraint.ValueRangeConstraint(0, 10)))
     return out
 
 
